@@ -90,6 +90,17 @@ class Repo:
                 except Exception:
                     pass
         self.consts = {k: v for k, v in ns.items() if isinstance(v, (int, str)) and not isinstance(v, bool) or isinstance(v, bool)}
+        # registry indices: NAME = register_xxx(...) at module level returns the number of earlier registrations (append-only lists)
+        for m2 in self.modules.values():
+            counters = {}
+            for node in m2.tree.body:
+                if isinstance(node, ast.Assign) and isinstance(node.value, ast.Call) and isinstance(node.value.func, ast.Name) and node.value.func.id.startswith("register_"):
+                    f = node.value.func.id
+                    k = counters.get(f, 0)
+                    counters[f] = k + 1
+                    for t in node.targets:
+                        if isinstance(t, ast.Name):
+                            self.consts[t.id] = k
 
     def resolve(self, module, name):
         """resolve a bare callee name used in `module` to a FuncInfo (or None)"""
